@@ -73,6 +73,11 @@ LimitTourSize_(r, k) == C_SetLimit(r, k, "tourSize", Len(V_Inner(r.tours[k])) - 
 BreakRelation(r, k, s, a, k2) ==
   [r EXCEPT !.relations = Append(@, [type |-> "any", vehicle |-> r.tours[k2].vehicle, shift |-> r.tours[k2].shift,
                                      jobs |-> << [id |-> r.tours[k].stops[s].acts[a].job, jix |-> r.tours[k].stops[s].acts[a].jix] >>])]
+\* broken relation, default shift: an ordering relation without a shift index pins its jobs to the FIRST shift of the vehicle; here
+\* the job is served by that vehicle in a later shift
+BreakRelationFirstShift(r, k, s, a) ==
+  [r EXCEPT !.relations = Append(@, [type |-> "strict", vehicle |-> r.tours[k].vehicle, shift |-> 1,
+                                     jobs |-> << [id |-> r.tours[k].stops[s].acts[a].job, jix |-> r.tours[k].stops[s].acts[a].jix] >>])]
 \* misplaced break: the break is reported an hour later than it is taken (its activity time no longer matches)
 MisplaceBreak(r, k, s, a) == C_SetTour(r, k, [r.tours[k] EXCEPT !.stops[s].acts[a].start = @ + 3600, !.stops[s].acts[a].end = @ + 3600])
 
@@ -96,6 +101,8 @@ Breaches(r) ==
   \cup { [class |-> "LimitTourSize", k |-> k, s |-> 0, a |-> 0, k2 |-> 0] : k \in { k \in C_Tours(r) : Len(V_Inner(r.tours[k])) >= 1 /\ ~LimitTourSize(LimitTourSize_(r, k)) } }
   \cup { [class |-> "BreakRelation", k |-> x[1], s |-> x[2], a |-> x[3], k2 |-> k2] : x \in C_JobSites(r),
             k2 \in { k2 \in C_Tours(r) : \E x \in C_JobSites(r) : k2 # x[1] /\ <<r.tours[k2].vehicle, r.tours[k2].shift>> # <<r.tours[x[1]].vehicle, r.tours[x[1]].shift>> } }
+  \cup { [class |-> "BreakRelationFirstShift", k |-> x[1], s |-> x[2], a |-> x[3], k2 |-> 0] :
+            x \in { x \in C_JobSites(r) : r.tours[x[1]].shift > 1 /\ ~RelationVehicle(BreakRelationFirstShift(r, x[1], x[2], x[3])) } }
   \cup { [class |-> "MisplaceBreak", k |-> x[1], s |-> x[2], a |-> x[3], k2 |-> 0] :
             x \in { x \in UNION { UNION { { <<k, s, a>> : a \in C_Acts(r, k, s) } : s \in C_Stops(r, k) } : k \in C_Tours(r) } :
                       r.tours[x[1]].stops[x[2]].acts[x[3]].type = "break" /\ ~PlacesAndWindows(MisplaceBreak(r, x[1], x[2], x[3])) } }
